@@ -57,6 +57,66 @@ theorem checkStep_sound (fill : α → α) (nat : Nat → α) (op : Op α) (l : 
   | renumberParticles => exact (checkRenumberParticles_iff eqv heqv nat l o.out).1 h
   | renumberObjects start => exact (checkRenumberObjects_iff eqv heqv nat start l o.out).1 h
 
+/-- what `checkStep` needs beyond the clauses: for `merge_and_drop_duplicates` one of the offered
+certificates must be a valid one (the clause Prop `MergeDropDupOK` only says that one EXISTS) -/
+def HintOK (eqv : α → α → Bool) (fill : α → α) : Op α → Motl α → Obs α → Prop
+  | .mergeDropDup b a s, l, o => ∃ cs ∈ o.hints, checkMergeDropDup eqv fill cs (rawInputs b a s l) o.out = true
+  | _, _, _ => True
+
+/-- **`checkStep` decides exactly the clauses of its operation** (plus, for `merge_and_drop_duplicates`,
+that a valid certificate was offered) -/
+theorem checkStep_iff (fill : α → α) (nat : Nat → α) (op : Op α) (l : Motl α) (o : Obs α) :
+    checkStep eqv fill nat op l o = true ↔ StepOK fill nat op l o ∧ HintOK eqv fill op l o := by
+  constructor
+  · intro h
+    refine ⟨checkStep_sound eqv heqv fill nat op l o h, ?_⟩
+    cases op with
+    | mergeDropDup b a s =>
+      unfold checkStep at h
+      simp only [stepClauses] at h
+      split at h
+      · rename_i cs hf
+        have hc := List.find?_some hf
+        exact ⟨cs, List.mem_of_find?_eq_some hf, hc⟩
+      · simp at h
+    | _ => trivial
+  · rintro ⟨h, hh⟩
+    unfold checkStep
+    cases op with
+    | subset f vs =>
+      simp only [stepClauses, List.all_cons, List.all_nil, Bool.and_true]
+      exact (checkSubset_iff eqv heqv f vs l o.out).2 h
+    | remove f vs => exact (checkRemove_iff eqv heqv f vs l o.out).2 h
+    | splitPick f i =>
+      have h' : SplitOK f l o.parts ∧ o.out = o.parts.getD i [] := h
+      simp only [stepClauses, List.all_append, List.all_cons, List.all_nil, Bool.and_true, Bool.and_eq_true]
+      exact ⟨(checkSplit_iff eqv heqv f l o.parts).2 h'.1, (listEqB_iff eqv heqv _ _).2 h'.2⟩
+    | intersect f other => exact (checkIntersect_iff eqv heqv fill f l other o.out).2 h
+    | dropDup dup dec asc => exact (checkDropDup_iff eqv heqv _ dup dec asc l o.out).2 h
+    | mergeRenumber b a s => exact (checkMergeRenumber_iff eqv heqv fill nat _ o.out).2 h
+    | mergeDropDup b a s =>
+      obtain ⟨cs, hcs, hc⟩ := hh
+      simp only [stepClauses]
+      cases hf : o.hints.find? (fun cs => checkMergeDropDup eqv fill cs (rawInputs b a s l) o.out) with
+      | some _ => rfl
+      | none => exact absurd hc (by simpa using List.find?_eq_none.1 hf cs hcs)
+    | renumberParticles => exact (checkRenumberParticles_iff eqv heqv nat l o.out).2 h
+    | renumberObjects start => exact (checkRenumberObjects_iff eqv heqv nat start l o.out).2 h
+
+/-- every step of an observed history meets its clauses, each judged against the REAL previous table -/
+def RunOK (eqv : α → α → Bool) (fill : α → α) (nat : Nat → α) : List (Op α × Obs α) → Motl α → Prop
+  | [], _ => True
+  | (op, o) :: rest, l => (StepOK fill nat op l o ∧ HintOK eqv fill op l o) ∧ RunOK eqv fill nat rest o.out
+
+/-- **`checkRun` decides exactly that** -/
+theorem checkRun_iff (fill : α → α) (nat : Nat → α) (steps : List (Op α × Obs α)) (l : Motl α) :
+    checkRun eqv fill nat steps l = true ↔ RunOK eqv fill nat steps l := by
+  induction steps generalizing l with
+  | nil => simp [checkRun, RunOK]
+  | cons s steps ih =>
+    obtain ⟨op, o⟩ := s
+    simp only [checkRun, RunOK, Bool.and_eq_true, checkStep_iff eqv heqv, ih]
+
 omit heqv in
 theorem mem_rawInputs (b a : List (Bool × Motl α)) (s : Bool) (l : Motl α) (x : Bool × Motl α)
     (hx : x ∈ rawInputs b a s l) (p : Particle α) (hp : p ∈ x.2) :
@@ -78,7 +138,7 @@ omit heqv in
 /-- a member of the shifted inputs is a tagged input, ids read after loading, object numbers moved by one offset -/
 theorem mem_shiftedInputs (fill : α → α) (cs : List α) (ins : List (Bool × Motl α)) (x : Bool × Motl α)
     (hx : x ∈ shiftedInputs fill cs ins) :
-    ∃ c, ∃ y ∈ ins, x = (y.1, shiftObj c (y.2.map (loadIds (fillIf fill y.1)))) := by
+    ∃ c, ∃ y ∈ ins, x = (y.1, shiftObj c (y.2.map (loadKeys (fillIf fill y.1)))) := by
   unfold shiftedInputs at hx
   induction cs generalizing ins with
   | nil => simp at hx
@@ -97,7 +157,7 @@ omit heqv in
 previous table or of a list the operation brings in, only id fields rewritten; a missing value may
 have been filled ONLY by an operation that re-loads a frame (`opFill`): selections, drop-duplicates
 and the renumberings return literal rows -/
-theorem stepOK_rows (fill : α → α) (nat : Nat → α) (op : Op α) (l : Motl α) (o : Obs α)
+theorem stepOK_rows (fill : α → α) (nat : Nat → α) (hfill : ∀ v, fill (fill v) = fill v) (op : Op α) (l : Motl α) (o : Obs α)
     (h : StepOK fill nat op l o) : ∀ q ∈ o.out, ∃ p ∈ l ++ op.sources, Unchanged (opFill fill op) p q := by
   intro q hq
   cases op with
@@ -148,9 +208,18 @@ theorem stepOK_rows (fill : α → α) (nat : Nat → α) (op : Op α) (l : Motl
     refine ⟨p0, hmem, unchanged_if_mono fill _ _ hflag p0 q ?_⟩
     intro g hg1 hg2
     have := hs g
-    unfold loadIds at this
-    rwa [Particle.get_set_other _ _ _ _ hg2, Particle.get_set_other _ _ _ _ hg1,
-      Particle.get_set_other _ _ _ _ hg2] at this
+    unfold loadKeys at this
+    by_cases hg3 : g = Field.score
+    · subst hg3
+      rw [Particle.get_set_other _ _ _ _ hg2, Particle.get_set_same] at this
+      have hidem : fillIf fill y.1 (fillIf fill y.1 p0.score) = fillIf fill y.1 p0.score := by
+        unfold fillIf; split
+        · exact hfill _
+        · rfl
+      rw [hidem] at this
+      exact Or.inr (this.elim id id)
+    · rwa [Particle.get_set_other _ _ _ _ hg2, Particle.get_set_other _ _ _ _ hg3, Particle.get_set_other _ _ _ _ hg1,
+        Particle.get_set_other _ _ _ _ hg2] at this
   | renumberParticles =>
     have h' : RenumberParticlesOK nat l o.out := h
     obtain ⟨p, hp, hu⟩ := forall2_mem_right h'.2 q hq
@@ -177,7 +246,7 @@ theorem checkRun_rows (fill : α → α) (nat : Nat → α) (hfill : ∀ v, fill
     rw [List.flatMap_cons, List.map_cons]
     have hu1' := unchanged_hist_cons fill op (steps.map (·.1)) p1 q hu1
     rcases List.mem_append.1 hp1 with h1 | h1
-    · obtain ⟨p0, hp0, hu0⟩ := stepOK_rows fill nat op l o (checkStep_sound eqv heqv fill nat op l o h.1) p1 h1
+    · obtain ⟨p0, hp0, hu0⟩ := stepOK_rows fill nat hfill op l o (checkStep_sound eqv heqv fill nat op l o h.1) p1 h1
       refine ⟨p0, ?_, unchanged_trans _ (histFill_idem fill hfill _) p0 p1 q
         (unchanged_op_to_hist fill op (steps.map (·.1)) p0 p1 hu0) hu1'⟩
       rcases List.mem_append.1 hp0 with h0 | h0
